@@ -17,6 +17,26 @@ pub struct Rewrite {
     /// case pattern per keyword token: (pattern, bits), applied in order to the tokens of the classes
     /// currency / money-code / month / zone / connective / variable, over ALL lines
     pub cases: Vec<(u8, u32)>,
+    /// extra blanks added where a money literal already has a blank between the amount and its currency word or sign
+    #[serde(default)]
+    pub inner: u8,
+}
+
+/// widen the blank run between the amount of a money literal and its currency (`10k usd`, `5 $`)
+fn widen_money_gaps(l: &mut Line, inner: u8) -> bool {
+    let mut changed = false;
+    if inner == 0 {
+        return false;
+    }
+    for t in l.toks.iter_mut() {
+        if t.class == Class::Money {
+            if let Some(i) = t.post.find(' ') {
+                t.post.insert_str(i, &" ".repeat(inner as usize));
+                changed = true;
+            }
+        }
+    }
+    changed
 }
 
 #[derive(Clone, Debug, Serialize, Deserialize)]
@@ -106,10 +126,12 @@ impl Prop for Noise {
         // the rewritten text
         let mut it = c.rw.cases.iter();
         let mut case_changed = false;
+        let mut money_gap = false;
         let mut lines: Vec<String> = vec![];
         let all = c.g.all_lines();
         for (i, l) in all.iter().enumerate() {
-            let rl = recase_line(l, &mut it, &mut case_changed);
+            let mut rl = recase_line(l, &mut it, &mut case_changed);
+            money_gap |= widen_money_gaps(&mut rl, c.rw.inner);
             if i + 1 == all.len() {
                 let mut s = rl.render_spaced(",", ".", &c.rw.extra);
                 if let Some(cm) = &c.rw.comment {
@@ -156,7 +178,8 @@ impl Prop for Noise {
         let blanks_inside = c.rw.extra.iter().take(c.g.line.toks.len()).skip(1).any(|e| *e > 0);
         let vocab_comment = c.rw.comment.as_ref().map_or(false, |cm| cm.chars().any(|ch| ch.is_alphanumeric()));
         acc.finish(rendered)
-            .nt(base_ok && (blanks_inside || case_changed || vocab_comment))
+            .nt(base_ok && (blanks_inside || case_changed || vocab_comment || money_gap))
+            .class_if(money_gap, "blanks-between-amount-and-currency")
             .class_if(base_ok, "base-evaluates")
             .class_if(blanks_inside, "blanks-between-tokens")
             .class_if(c.rw.extra.first().map_or(false, |e| *e > 0), "leading-blanks")
@@ -241,8 +264,9 @@ pub fn rewrite_strategy() -> impl Strategy<Value = Rewrite> {
         prop::collection::vec(prop_oneof![5 => Just(0u8), 3 => 1u8..=2, 1 => 3u8..=5], 0..40),
         prop::option::weighted(0.5, comment_strategy()),
         prop::collection::vec((0u8..5, any::<u32>()), 0..24),
+        prop_oneof![2 => Just(0u8), 2 => 1u8..=2, 1 => 3u8..=6],
     )
-        .prop_map(|(extra, comment, cases)| Rewrite { extra, comment, cases })
+        .prop_map(|(extra, comment, cases, inner)| Rewrite { extra, comment, cases, inner })
 }
 
 /// lines with EVERY zone key of the table written as configured - also the ones the zone syntax cannot express
@@ -284,9 +308,9 @@ pub fn regressions() -> Vec<Case> {
     let five = GenLine::simple(Line::new(vec![Tok::num(NumLit::new(5.0))]), "C02");
     let date = GenLine { prelude: vec![], line: Line::new(vec![Tok::num(NumLit::new(12.0)), Tok::word("feb", Class::Month), Tok::num(NumLit::new(2020.0))]), lang: "en".into(), tz: None, src: "C09".into() };
     vec![
-        Case { g: five.clone(), rw: Rewrite { extra: vec![], comment: Some(" jan 2020".into()), cases: vec![] } },
-        Case { g: five, rw: Rewrite { extra: vec![2, 0, 3], comment: Some("x = 2 usd EST 10:30 [NUMBER:1]".into()), cases: vec![] } },
-        Case { g: date, rw: Rewrite { extra: vec![1, 2, 3, 4], comment: Some(" mar".into()), cases: vec![(1, 0)] } },
+        Case { g: five.clone(), rw: Rewrite { extra: vec![], comment: Some(" jan 2020".into()), cases: vec![], inner: 0 } },
+        Case { g: five, rw: Rewrite { extra: vec![2, 0, 3], comment: Some("x = 2 usd EST 10:30 [NUMBER:1]".into()), cases: vec![], inner: 0 } },
+        Case { g: date, rw: Rewrite { extra: vec![1, 2, 3, 4], comment: Some(" mar".into()), cases: vec![(1, 0)], inner: 0 } },
     ]
 }
 
